@@ -355,6 +355,10 @@ func execCase[C any](r *Runner, ck *Check[C], c C, desc []byte, rec *Recorder) (
 			if he, ok := e.(HarnessError); ok {
 				r.fatalHarness(he.Msg + "\n" + string(debug.Stack()))
 			}
+			if lh, ok := e.(LibraryHang); ok {
+				res = Result{Violation: &Violation{Signature: "hang/blocked-outside-the-controlled-operations", Message: lh.Msg}}
+				return
+			}
 			st := string(debug.Stack())
 			where, inLib := panicOrigin(st)
 			msg := fmt.Sprint(e)
